@@ -7,6 +7,8 @@ import (
 	"go/constant"
 	"go/token"
 	"go/types"
+	"math/big"
+	"regexp"
 	"sort"
 	"strings"
 
@@ -16,7 +18,7 @@ import (
 func init() {
 	register("C03",
 		"that a reported instant is a root of the solar longitude, the 14.6-15.8 day spacing, strict increase, and the agreement of adjacent years' tables (all numeric in the ephemeris).",
-		r03_1, r03_2, r03_3, r03_4, r03_5, r03_6, r03_7, r03_8, r08_8, r04_9, r08_6)
+		r03_1, r03_2, r03_3, r03_4, r03_5, r03_6, r03_7, r03_8, r08_8, r04_9, r08_6, r03_9, r03_10)
 }
 
 // convertMap reads convertJieQi as a finite map alias -> name: the function is followed by the
@@ -1018,4 +1020,128 @@ func tailList(xs []string, n int) []string {
 		return xs
 	}
 	return xs[len(xs)-n:]
+}
+
+// R03.9: the delta-T table is interpolated by the cubic its entries are the coefficients of.
+func r03_9(c *Ctx, r *Report) {
+	const rule = "R03.9"
+	r.rule(rule, "The delta-T table is evaluated as the cubic its records describe. DT_AT holds records (knot year, a, b, c, d); between two knots dtCalc returns — read as a polynomial with exact rational coefficients over the table entries and the quotient q = (y - knot) / (next knot - knot) (E11b: sums, differences, products, quotients by constants; anything else is an atom) — exactly a + 10·b·q + 100·c·q² + 1000·d·q³ with a, b, c, d the four entries after the knot in that order and the next knot five entries on: each power of q once, with the entry of its own degree. (R08.6 checks on the data that consecutive records join to within 15 s under this very formula; a cubic whose third power is built from the wrong factors bends every term instant before 2000 by minutes.) That the entries themselves are right is data.")
+	fn := c.Fn(r, rule, "ShouXingUtil.dtCalc")
+	if fn == nil {
+		return
+	}
+	env := &polyEnv{fn: fn, quot: map[string][2]polyForm{}, memo: map[ssa.Value]polyForm{}}
+	entry := regexp.MustCompile(`^ShouXingUtil\.DT_AT\[(.*?)(?: \+ (\d+))?\]$`)
+	parseEntry := func(atom string) (base string, off int64, ok bool) {
+		m := entry.FindStringSubmatch(atom)
+		if m == nil {
+			return "", 0, false
+		}
+		if m[2] != "" {
+			fmt.Sscanf(m[2], "%d", &off)
+		}
+		return m[1], off, true
+	}
+	n := 0
+	for _, ret := range returnsIn(fn, nil) {
+		if len(ret.Results) != 1 {
+			continue
+		}
+		p := env.of(ret.Results[0], 0)
+		uses := false
+		for m := range p {
+			if strings.Contains(m, "ShouXingUtil.DT_AT[") {
+				uses = true
+			}
+		}
+		if !uses || len(env.quot) == 0 {
+			continue // the extrapolation beyond the table
+		}
+		hasQuot := false
+		for m := range p {
+			for q := range env.quot {
+				if strings.Contains(m, q) {
+					hasQuot = true
+				}
+			}
+		}
+		if !hasQuot {
+			continue
+		}
+		n++
+		var bad []string
+		var base, qname string
+		byDeg := map[int]string{}
+		for m, coef := range p {
+			var tab []string
+			deg := 0
+			q := ""
+			okMono := true
+			for _, a := range strings.Split(m, "·") {
+				if _, _, isE := parseEntry(a); isE {
+					tab = append(tab, a)
+				} else if _, isQ := env.quot[a]; isQ {
+					if q != "" && q != a {
+						okMono = false
+					}
+					q = a
+					deg++
+				} else {
+					okMono = false
+				}
+			}
+			if !okMono || len(tab) != 1 {
+				bad = append(bad, "a term that is not (table entry) x q^k: "+coef.RatString()+"·"+m)
+				continue
+			}
+			if q != "" {
+				if qname != "" && qname != q {
+					bad = append(bad, "two different quotients are used")
+				}
+				qname = q
+			}
+			b, off, _ := parseEntry(tab[0])
+			if base == "" {
+				base = b
+			} else if base != b {
+				bad = append(bad, "entries of two different records are mixed")
+			}
+			want := new(big.Rat).SetInt64(1)
+			for i := 0; i < deg; i++ {
+				want.Mul(want, big.NewRat(10, 1))
+			}
+			if off != int64(deg)+1 || coef.Cmp(want) != 0 {
+				bad = append(bad, fmt.Sprintf("the entry %d places after the knot carries q^%d with factor %s (stated: entry k+1 carries 10^k·q^k)", off, deg, coef.RatString()))
+			}
+			if prev, dup := byDeg[deg]; dup {
+				bad = append(bad, fmt.Sprintf("the power q^%d occurs twice (%s and %s)", deg, prev, tab[0]))
+			}
+			byDeg[deg] = tab[0]
+		}
+		for k := 0; k <= 3; k++ {
+			if _, ok := byDeg[k]; !ok {
+				bad = append(bad, fmt.Sprintf("no term in q^%d", k))
+			}
+		}
+		if nd, ok := env.quot[qname]; ok && base != "" {
+			knot := "ShouXingUtil.DT_AT[" + base + "]"
+			next := "ShouXingUtil.DT_AT[" + base + " + 5]"
+			wantNum := polyForm{fn.Params[0].Name(): big.NewRat(1, 1), knot: big.NewRat(-1, 1)}
+			wantDen := polyForm{next: big.NewRat(1, 1), knot: big.NewRat(-1, 1)}
+			if nd[0].String() != wantNum.String() || nd[1].String() != wantDen.String() {
+				bad = append(bad, fmt.Sprintf("q is (%s)/(%s), stated (y - knot)/(next knot - knot)", nd[0], nd[1]))
+			}
+		}
+		sort.Strings(bad)
+		r.check(len(bad) == 0, rule, "ShouXingUtil.dtCalc interpolates a + b·t + c·t² + d·t³ with t = 10·(y - knot)/(next knot - knot)", c.pos(ret.Pos()), fmt.Sprintf("returned polynomial: %s; deviations: %v", truncate(p.String(), 400), headList(dedupe(bad), 4)))
+	}
+	r.floor(rule, 1)
+	_ = n
+}
+
+func truncate(s string, n int) string {
+	if len(s) <= n {
+		return s
+	}
+	return s[:n] + "…"
 }
